@@ -300,13 +300,34 @@ def run_(ctx, res):
                      ('foreign-public-key-at-a', 'a', lambda c: c['peer_auth'].__setitem__('pubkey', other[1]), 'A'),
                      ('psk-method-against-rsa-only-peer', 'a', lambda c: (c['my_auth'].pop('privkey'), c['my_auth'].__setitem__('psk', 'whatever')), 'B'),
                      ('psk-method-by-responder-against-rsa-only', 'b', lambda c: (c['my_auth'].pop('privkey'), c['my_auth'].__setitem__('psk', 'whatever')), 'A')]
-        muts += [('wrong-identity', 'a', lambda c: c['my_auth'].__setitem__('id', 'eve@openikev2'), 'B'),
+        # identities that differ from the configured one in as little as one bit (case of a letter, 0x20 in an address byte,
+        # a trailing dot), for every identity type the configuration can express and both roles
+        NEAR = [('alice@openikev2', 'Alice@openikev2'), ('alice@openikev2', 'alice@Openikev2'), ('alice@openikev2', 'alice@openikev2.'),
+                ('gw.openikev2', 'GW.openikev2'), ('gw.openikev2', 'gw.openikev3'), ('192.168.0.65', '192.168.0.97'),
+                ('10.65.0.1', '10.97.0.1'), ('192.168.0.65', '192.168.0.64'), ('2001:db8::41', '2001:db8::61'),
+                ('2001:db8::41', '2001:db8:0:0:0:0:0:40'), ('192.168.0.65', '192.168.0.65.'), ('alice@openikev2', 'alice.openikev2')]
+
+        def near(side, expected, presented):
+            def fn(c, other):
+                c['my_auth']['id'] = presented
+                other['peer_auth']['id'] = expected
+            return fn
+        for k, (e, p) in enumerate(NEAR):
+            for side in 'ab':
+                for (x, y) in ((e, p), (p, e)):
+                    muts.append(('near-identity:%s-presents-%s-for-%s' % (side, y, x), side + '+', near(side, x, y), 'B' if side == 'a' else 'A'))
+        muts += [('same-identity-other-spelling', 'a+', near('a', '2001:db8::41', '2001:db8:0:0:0:0:0:41'), True),
+                 ('wrong-identity', 'a', lambda c: c['my_auth'].__setitem__('id', 'eve@openikev2'), 'B'),
                  ('wrong-identity-type', 'a', lambda c: c['my_auth'].__setitem__('id', 'alice.openikev2'), 'B'),
                  ('wrong-identity-of-responder', 'b', lambda c: c['my_auth'].__setitem__('id', 'eve@openikev2'), 'A'),
                  ('matching', 'a', lambda c: None, True)]
         for name, side, fn, possible in muts:
             ca, cb = copy.deepcopy(base_a), copy.deepcopy(base_b)
-            fn(list(ca.values())[0] if side == 'a' else list(cb.values())[0])
+            if side.endswith('+'):
+                mine, other = (ca, cb) if side[0] == 'a' else (cb, ca)
+                fn(list(mine.values())[0], list(other.values())[0])
+            else:
+                fn(list(ca.values())[0] if side == 'a' else list(cb.values())[0])
             seed = rng.randrange(1 << 30)
             try:
                 sess = Session(seed, ca, cb)
